@@ -405,7 +405,7 @@ theorem envRel_env0 (FN : List Nat) : EnvRel g FN [] env0 env0 := by
 
 end
 
-theorem propagate_ok_spec {g g' : TGrammar} (h : propagate g = (.ok, g')) :
+theorem propagate_ok_spec {q : Quirks} {g g' : TGrammar} (h : propagate q g = (.ok, g')) :
     g'.inputs = g.inputs ∧ checkModel g' = true := by
   unfold propagate at h
   simp only at h
